@@ -90,6 +90,23 @@ def circuit_jobs(ctx, small=False):
             jobs.append((n, conn, []))
             jobs += [(n, conn, [g]) for g in gi]
             jobs += [(n, conn, [g1, g2]) for g1 in gi for g2 in gi]
+    # circuits that already respect the coupling graph but waste gates (routing with SWAPs, repeated CX/CZ): the natural inputs of a compressor
+    if not small:
+        for n, conn in docs.ADVERTISED:
+            edges = docs.coupling_edges(n, conn)
+            for t in range(60 if ctx.quick else 600):
+                L = rnd.choice([2, 3, 3, 4, 5, 6, 8])
+                gates = [("h", [q]) for q in range(n) if rnd.random() < 0.5] or [("h", [rnd.randrange(n)])]      # superpositions first, so the two-qubit gates entangle
+                for _ in range(L):
+                    r = rnd.random()
+                    if r < 0.3:
+                        gates.append((rnd.choice(["h", "s", "sdg", "x", "y", "z"]), [rnd.randrange(n)]))
+                    else:
+                        a, b = rnd.choice(edges)
+                        if rnd.random() < 0.5:
+                            a, b = b, a
+                        gates.append((rnd.choice(["cx", "cz", "swap", "swap"]), [a, b]))
+                jobs.append((n, conn, gates))
     per = (2 if small else 8) if ctx.quick else (10 if small else 80)
     for n, conn in docs.ADVERTISED:
         gi = gate_instances(n)
